@@ -57,19 +57,29 @@ decreasing_by
   simp only [List.length_cons]
   exact Nat.lt_succ_of_le (List.dropWhile_sublist _).length_le
 
+/-- one member of a metadata object (RFC 7952 sec. 5.2): `"module:annotation":value` -/
+def metaText (m : JMeta) : Bytes := [34] ++ m.modName ++ [58] ++ m.name ++ [34, 58] ++ printValue m.kind m.value
+
+/-- the metadata object -/
+def metaObjText (ms : List JMeta) : Bytes := [123] ++ sep (ms.map metaText) ++ [125]
+
+/-- the `"@":{…}` member a container / list entry with annotations starts with -/
+def metaMember (ms : List JMeta) : List Bytes := if ms.isEmpty then [] else [[34, 64, 34, 58] ++ metaObjText ms]
+
 mutual
 /-- the JSON text of one instance's value -/
 def body : JNode → Bytes
-  | .mk kind _ modName _ _ _ vkind value kids =>
+  | .mk kind _ modName _ _ metas vkind value kids =>
     match kind with
     | .leaf | .leaflist => printValue vkind value
-    | .cont | .list => [123] ++ sep (members false (some modName) (items kids)) ++ [125]
+    | .cont | .list => [123] ++ sep (metaMember metas ++ members false (some modName) (items kids)) ++ [125]
 def items : List JNode → List Item
   | [] => []
   | n :: r => ⟨n.sid, n.kind.isArr, n.modName, n.name, n.shown, body n⟩ :: items r
 end
 
-/-- the specification of `json_print_data` (all siblings, shrink) for trees without metadata -/
+/-- the specification of `json_print_data` (all siblings, shrink); metadata: the `@` member of containers and list entries (the
+    `@name` member of leaves and the `@name` array of leaf-lists are not in the specification yet) -/
 def specData (forest : List JNode) : Bytes :=
   [123] ++ sep (members true none (items forest)) ++ [125]
 
